@@ -29,18 +29,49 @@ def normOne (k : String) (v : AVal) : Kw :=
   else if k == "max_occurs" && isInfMax v then [("max_occurs", .inf)]
   else if k == "type_name" then []                       -- only marks `_explicit_type_name`
   else if k == "nullable" then [("nillable", v)]         -- same metaclass property
+  else if k == "primary_key" || k == "pk" then [("primary_key", v)]   -- (and into the column keywords)
+  else if k == "autoincrement" || k == "onupdate" || k == "server_default" then []   -- column keywords only
   else [(k, v)]
 
 /-- all writes of a customisation, latest first -/
 def normKw (kw : Kw) : Kw := kw.foldl (fun acc p => normOne p.1 p.2 ++ acc) []
 
-/-- the fresh `class Attributes(cls.Attributes)`: `nillable` is re-initialised from the resolved value
+/-- what the keyword loop writes *into* `Attributes.sqla_column_args[-1]`, in order -/
+def colWrites (kw : Kw) : Kw :=
+  kw.foldl (fun acc p =>
+    if p.1.startsWith "_" then acc
+    else if p.1 == "primary_key" || p.1 == "pk" then acc ++ [("primary_key", p.2)]
+    else if p.1 == "autoincrement" || p.1 == "onupdate" || p.1 == "server_default" then acc ++ [(p.1, p.2)]
+    else acc) []
+
+def applyCol (d : Kw) (w : Kw) : Kw := w.foldl (fun acc p => odictSet acc p.1 p.2) d
+
+/-- the fresh `class Attributes(cls.Attributes)`: `sqla_column_args` is `(), {}` or a copy of the resolved pair
+    (a deep one, or one that shares the dict), `nillable` is re-initialised from the resolved value
     (properties get reset), then the keyword loop runs -/
-def newAttrRec (h : Heap) (srcAttrs : Nat) (kw : Kw) : AttrRec :=
+def newAttrRec (F : Facts15) (h : Heap) (srcAttrs : Nat) (kw : Kw) : AttrRec :=
   let nilW : Kw := match attrAt h srcAttrs "nillable" with
     | some v => if v == .none then [] else [("nillable", v)]
     | none => []
-  { own := normKw kw ++ nilW, parent := some srcAttrs, variants := none, dca := none, dcaa := none }
+  let col : Option Kw × Option Nat := match colH h srcAttrs with
+    | none => (some (applyCol [] (colWrites kw)), none)
+    | some (holder, d) =>
+      if F.colCopy == .deep then (some (applyCol d (colWrites kw)), none) else (none, some holder)
+  { own := normKw kw ++ nilW, parent := some srcAttrs, variants := none, dca := none, dcaa := none,
+    colArgs := col.1, colRef := col.2 }
+
+/-- with a shallow copy, the keyword loop's writes land in the dict of the class derived from -/
+def aliasColWrite (F : Facts15) (srcAttrs : Nat) (kw : Kw) : M Unit := do
+  let h ← getHeap
+  match colH h srcAttrs with
+  | none => pure ()
+  | some (holder, d) => if F.colCopy == .deep then pure () else updCol holder (applyCol d (colWrites kw))
+
+/-- `class Attributes(cls.Attributes)` + the keyword loop -/
+def allocDerived (F : Facts15) (srcAttrs : Nat) (kw : Kw) : M Nat := do
+  let h ← getHeap
+  aliasColWrite F srcAttrs kw
+  allocAttrs (newAttrRec F h srcAttrs kw)
 
 /-! ## numbers: `Decimal._s_customize` (spyne/model/primitive/number.py:107-172) -/
 
@@ -142,17 +173,16 @@ def simpleCustomize (F : Facts15) (src : Nat) (kw : Kw) : M Nat := do
   guardNone (if sc.kind.isComplex then some "AttributeError" else none)
   let h ← getHeap
   guardNone (if sc.kind == .number then numberPrecheck h sc.attrs kw else none)
-  let a ← allocAttrs (newAttrRec h sc.attrs (if sc.kind == .number then numberKw F h sc.attrs kw else kw))
+  let a ← allocDerived F sc.attrs (if sc.kind == .number then numberKw F h sc.attrs kw else kw)
   let h1 ← getHeap
   allocCls (simpleNewCls F h1 sc src a kw)
 
 /-! ## `ModelBaseMeta.customize` on an XmlAttribute class -/
 
-def xmlCustomize (src : Nat) (kw : Kw) : M Nat := do
+def xmlCustomize (F : Facts15) (src : Nat) (kw : Kw) : M Nat := do
   let sc ← getCls src
   guardNone (if sc.kind.isComplex then some "AttributeError" else none)
-  let h ← getHeap
-  let a ← allocAttrs (newAttrRec h sc.attrs kw)
+  let a ← allocDerived F sc.attrs kw
   allocCls { sc with attrs := a, orig := some (sc.orig.getD src) }
 
 /-! ## `ComplexModelBase._process_variants` (spyne/model/complex.py:1275-1283) -/
@@ -222,12 +252,17 @@ def delayRest (n a : Nat) (rest : List (String × Kw)) : M Unit := do
 
 /-- `type(cls_name, cls_bases, cls_dict)` with the fresh `Attributes`, the copy of `_type_info` and of the
     delayed child attributes, and the registration with the original: (attributes id, class id) -/
-def newVariant (sc : Cls) (src : Nat) (ext : Option Nat) (kw : Kw) (h0 : Heap) : M (Nat × Nat) := do
-  let a ← allocAttrs (newAttrRec h0 sc.attrs kw)
+def newVariantTail (rec0 : AttrRec) (sc : Cls) (src : Nat) (ext : Option Nat) (kw : Kw) : M (Nat × Nat) := do
+  let a ← allocAttrs rec0
   let n ← allocCls (variantCls sc src a ext kw)
   copyDca a
   processVariants (sc.orig.getD src) n a
   pure (a, n)
+
+def newVariant (F : Facts15) (sc : Cls) (src : Nat) (ext : Option Nat) (kw : Kw) : M (Nat × Nat) := do
+  let h ← getHeap
+  aliasColWrite F sc.attrs kw
+  newVariantTail (newAttrRec F h sc.attrs kw) sc src ext kw
 
 mutual
 /-- `ComplexModelBase.customize` (complex.py:1223-1273) -/
@@ -239,7 +274,7 @@ def custComplex (F : Facts15) : Nat → Nat → Kw → Option (List (String × K
     guardNone (if sc.kind.isComplex then none else some "AttributeError")
     let h ← getHeap
     let ext ← liftExcept (variantExtends h sc (sc.orig.getD src))
-    let an ← newVariant sc src ext kw h
+    let an ← newVariant F sc src ext kw
     processCaa F fuel an.2 an.1 sc.fields ext caa
     processCa F fuel an.2 an.1 ca
     pure an.2
@@ -284,7 +319,7 @@ def customizeAny (F : Facts15) : Nat → Nat → Kw → M Nat
     let sc ← getCls src
     match sc.kind with
     | .complex | .array | .iterable => custComplex F fuel src kw none none
-    | .xmlattr => xmlCustomize src kw
+    | .xmlattr => xmlCustomize F src kw
     | _ => simpleCustomize F src kw
 
 /-- `ti[k] = ti[k].customize(**kw)` -/
